@@ -2,7 +2,7 @@ from asyncio import CancelledError, Task, TaskGroup, current_task, get_event_loo
 from collections.abc import Callable, Coroutine
 from contextvars import ContextVar, Token, copy_context
 from types import TracebackType
-from typing import Any, final
+from typing import Any, Self, final
 
 __all__ = [
     "TaskGroupContext",
@@ -11,7 +11,7 @@ __all__ = [
 
 @final
 class TaskGroupContext:
-    _context = ContextVar[TaskGroup]("TaskGroupContext")
+    _context = ContextVar[Self]("TaskGroupContext")
 
     @classmethod
     def run[Result, **Arguments](
@@ -21,9 +21,9 @@ class TaskGroupContext:
         *args: Arguments.args,
         **kwargs: Arguments.kwargs,
     ) -> Task[Result]:
-        group: TaskGroup
+        current: Self
         try:
-            group = cls._context.get()
+            current = cls._context.get()
 
         except LookupError:  # spawn task out of group as a fallback
             return get_event_loop().create_task(
@@ -31,21 +31,67 @@ class TaskGroupContext:
                 context=copy_context(),
             )
 
-        return group.create_task(
-            function(*args, **kwargs),
-            context=copy_context(),
-        )
+        return current._spawn(function(*args, **kwargs))
 
     def __init__(
         self,
     ) -> None:
         self._group: TaskGroup = TaskGroup()
-        self._token: Token[TaskGroup] | None = None
+        self._token: Token[Self] | None = None
+        self._parent: Task[Any] | None = None
+        # the group asks its parent task to cancel (once) when one of its tasks fails - such
+        # a request can't be told from a cancellation requested from the outside by looking
+        # at the parent only, keep track of the number of requests around each failure instead
+        self._failing: dict[Task[Any], int] = {}
+        self._cancelled_parent: bool = False
+
+    def _spawn[Result](
+        self,
+        coroutine: Coroutine[None, None, Result],
+        /,
+    ) -> Task[Result]:
+        task: Task[Result] = self._group.create_task(
+            self._observed(coroutine),
+            context=copy_context(),
+        )
+        # registered after the callback of the group - called when the group has reacted already
+        task.add_done_callback(self._observe_done)
+        return task
+
+    async def _observed[Result](
+        self,
+        coroutine: Coroutine[None, None, Result],
+        /,
+    ) -> Result:
+        try:
+            return await coroutine
+
+        except CancelledError:
+            raise  # group does not react to cancelled tasks
+
+        except BaseException:
+            if (task := current_task()) is not None and self._parent is not None:
+                self._failing[task] = self._parent.cancelling()
+
+            raise
+
+    def _observe_done(
+        self,
+        task: Task[Any],
+        /,
+    ) -> None:
+        requested: int | None = self._failing.pop(task, None)
+        if requested is None or self._parent is None:
+            return
+
+        if not self._cancelled_parent and self._parent.cancelling() > requested:
+            self._cancelled_parent = True
 
     async def __aenter__(self) -> None:
         assert self._token is None, "TaskGroupContext reentrance is not allowed"  # nosec: B101
         await self._group.__aenter__()
-        self._token = TaskGroupContext._context.set(self._group)
+        self._parent = current_task()
+        self._token = TaskGroupContext._context.set(self)
 
     async def __aexit__(
         self,
@@ -58,7 +104,12 @@ class TaskGroupContext:
         self._token = None
 
         task: Task[Any] | None = current_task()
-        cancelling: int = task.cancelling() if task is not None else 0
+        cancelled_parent: bool = self._cancelled_parent
+        # cancellation requested by the group itself before (one of its tasks failed when
+        # running the body) is taken back by the group when its exit begins
+        cancelling: int = (task.cancelling() if task is not None else 0) - (
+            1 if cancelled_parent else 0
+        )
 
         try:
             await self._group.__aexit__(
@@ -71,10 +122,12 @@ class TaskGroupContext:
             raise  # never silence cancellation, it might have been requested when awaiting tasks
 
         except BaseException:
-            # group exiting with an exception is aborting from the start, it never cancels
-            # its parent then - cancellation requested meanwhile came from the outside
-            # and was dropped by the group in favour of the exception, do not lose it
-            if exc_type is not None and task is not None and task.cancelling() > cancelling:
+            # group prefers errors of its tasks (or of the body) over the cancellation - when
+            # cancellation was requested from the outside meanwhile it got dropped by the group,
+            # do not lose it. Cancellation requested by the group itself when exiting already
+            # (one of its tasks failed then) is never taken back by the group - do not count it
+            requested: int = 1 if self._cancelled_parent and not cancelled_parent else 0
+            if task is not None and task.cancelling() - requested > cancelling:
                 raise CancelledError() from None
 
             pass  # silence TaskGroup exceptions, if there was exception already we will get it
